@@ -96,6 +96,8 @@ type Exec struct {
 	curHidden map[string]Term
 	abstracted []string
 	litIndex map[*ast.FuncLit]int
+	closures map[types.Object]*ast.FuncLit
+	inlineDepth int
 }
 
 func (x *Exec) unsupported(n ast.Node, format string, a ...any) {
@@ -190,6 +192,14 @@ func (x *Exec) merge2(a, b *State) *State {
 	for o := range a.vars {
 		if _, ok := b.vars[o]; ok {
 			objs = append(objs, o)
+		} else {
+			// only defined on one side (out of scope on the other): keep it, its value elsewhere is irrelevant
+			out.vars[o] = a.vars[o]
+		}
+	}
+	for o := range b.vars {
+		if _, ok := a.vars[o]; !ok {
+			out.vars[o] = b.vars[o]
 		}
 	}
 	sort.Slice(objs, func(i, j int) bool {
